@@ -493,12 +493,9 @@ func newSchemaType(spec *specification.Schema, components Componenter, cfg Confi
 					Embedded:           true,
 					RenderToBaseTypeFn: schema.RenderToBaseType,
 				})
-			} else if schema.Kind() == SchemaKindObject {
-				st, ims, err := NewStructureType(a.Value(), components, cfg)
-				if err != nil {
-					return nil, nil, fmt.Errorf("allOf: %d-th element: new structure type: %w", i, err)
-				}
-				imports = append(imports, ims...)
+			} else if st, ok := schema.Type.(StructureType); ok {
+				// reuse the fields built by NewSchema: building the structure a second
+				// time would declare its nested inline objects twice
 				s.Fields = append(s.Fields, st.Fields...)
 			} else {
 				return nil, nil, fmt.Errorf("allOf: %d-th element: wrong schema type: only type 'object' is supported: object type: %q", i, schema.Kind())
